@@ -136,7 +136,7 @@ class FileHashStore(HashStore):
             self.use_multiprocessing = (
                 os.getenv("USE_MULTIPROCESSING", "False") == "True"
             )
-            if self.use_multiprocessing == "True":
+            if self.use_multiprocessing:
                 # Create multiprocessing synchronization variables
                 # Synchronization values for object locked pids
                 self.object_pid_lock_mp = multiprocessing.Lock()
